@@ -138,7 +138,7 @@ func noCallBetween(from ssa.Instruction, to ssa.Instruction) bool {
 		if from.Block() != b {
 			return false
 		}
-		start = instrIndex(from)
+		start = instrIndex(from) + 1
 	}
 	for i := start; i < instrIndex(to); i++ {
 		switch b.Instrs[i].(type) {
